@@ -41,6 +41,14 @@ static inline int pt_eval_mark(ptctx_t *c, unsigned tag)
 }
 #define E(c, tag) pt_eval_mark((c), (tag))
 
+/* observable evaluation of a child-pointer argument */
+static inline uint16_t *pt_ptr_mark(ptctx_t *c, unsigned depth, unsigned tag)
+{
+	pt_trace_add(c, tag);
+	return &c->pt[depth];
+}
+#define PP(c, depth, tag) pt_ptr_mark((c), (depth), (tag))
+
 typedef int (pt_prog_fn)(ptctx_t *);
 
 #endif
